@@ -28,6 +28,7 @@ type HarnessRun struct {
 	NatFiles []string // additional files for the native replay only (the same API with bodies)
 	APIs     []string // extra API templates (harness/api/api_<name>_{sym,native}.go.tmpl)
 	Solver   string
+	Stubs    map[string]string
 	Entry    string
 	Params   map[string]int
 	Unwind   int
@@ -293,7 +294,7 @@ func cmdCheck(args []string) int {
 			}
 			engines[key] = eng
 		}
-		opts := RunOpts{Unwind: run.Unwind, Params: run.Params, PanicViolation: run.Panics}
+		opts := RunOpts{Unwind: run.Unwind, Params: run.Params, PanicViolation: run.Panics, Stubs: run.Stubs}
 		if run.Permute > 0 {
 			opts.PermuteMaps, opts.PermuteMax = true, run.Permute
 		}
